@@ -26,7 +26,7 @@ LEVEL_NOTE = "Position error bound = 1.5*sqrt(tol)/sigma_min(J) with tol = 1e-7 
 RULE = ("cases: sample2d chunks (random fields/masks/positions/substitutes), roundtrip (one grid x subgrid x 2000 positions), e2e (lon/lat release + lon/lat output, sparse and dense). "
         "Non-trivial: positions within one cell of the rim of the valid region are present / masked or outside points present; distinct by grid parameters.")
 MANDATORY = ["e2e_inactive_particles", "e2e_split_output_files", "post_sample2D", "roundtrip_positions", "longitudes_beyond_180", "rim_positions", "subgrid", "outside_value_zero", "outside_value_nan", "masked_corner",
-             "all_masked", "outside_raises", "e2e_lonlat_release", "e2e_lonlat_output", "exact_bilinear_field"]
+             "all_masked", "outside_raises", "e2e_lonlat_release", "e2e_lonlat_output", "exact_bilinear_field", "fine_grid_below_250m", "e2e_fine_grid_below_250m"]
 ASSUMPTIONS = ["grids are conformal and smooth (polar stereographic) as the property quantifies; the branch cut of longitude is kept outside the grid"]
 TIMEOUT = {"quick": 600, "thorough": 3000}
 TOL = 1.0e-7  # bilin_inv default
@@ -95,8 +95,10 @@ def _install():
     return S, R
 
 
-def polar_spec(rng, imax: int, jmax: int) -> dict[str, float]:
+def polar_spec(rng, imax: int, jmax: int, fine: bool = False) -> dict[str, float]:
     dx = float(np.exp(rng.uniform(np.log(800.0), np.log(20000.0))))
+    if fine:  # fjord-scale models
+        dx = float(rng.uniform(100.0, 250.0))
     lat0 = float(rng.uniform(55.0, 80.0))
     Rr = 6371.0e3 * (1 + np.sin(np.radians(60.0)))
     r = Rr * np.tan(np.radians(90.0 - lat0) / 2) / dx
@@ -201,7 +203,9 @@ def _case_sample2d(case, S, V, sit, cnt, keys):
 def _case_roundtrip(case, R, wd, V, sit, cnt, keys):
     rng = C.rng_for(case["seed"], 16, case["idx"], 1)
     imax, jmax = int(rng.integers(12, 41)), int(rng.integers(10, 33))
-    pol = polar_spec(rng, imax, jmax)
+    pol = polar_spec(rng, imax, jmax, fine=case["idx"] % 4 == 0)
+    if pol["dx"] <= 250.0:
+        _bump(sit, "fine_grid_below_250m")
     spec = dict(imax=imax, jmax=jmax, N=2, t0=C.T0, frames=[0, 3600], files=[2], vel=dict(kind="zero"),
                 metric=pol, lonlat=pol, grid_in_forcing=False)
     w = W.write_world(wd / "w", spec)
@@ -286,7 +290,10 @@ def _case_roundtrip(case, R, wd, V, sit, cnt, keys):
 def _case_e2e(case, wd, V, sit, cnt, keys):
     rng = C.rng_for(case["seed"], 16, case["idx"], 2)
     imax, jmax = int(rng.integers(14, 26)), int(rng.integers(12, 22))
-    pol = polar_spec(rng, imax, jmax)
+    pol = polar_spec(rng, imax, jmax, fine=case["idx"] % 4 == 2)
+    if pol["dx"] <= 250.0:
+        _bump(sit, "e2e_fine_grid_below_250m")
+    postol = max(0.05, 1.5 * np.sqrt(TOL) / (0.9 * pol["dx"] / 111.2e3))  # the solver's tolerance is absolute in degrees
     dt = 600
     nsteps = 4
     start = C.T0
@@ -343,7 +350,7 @@ def _case_e2e(case, wd, V, sit, cnt, keys):
         for k in range(npart):
             x, y = float(r0.vars["X"][k]), float(r0.vars["Y"][k])
             res2 = (bil(LON, x, y) - lon[k]) ** 2 + (bil(LAT, x, y) - lat[k]) ** 2
-            if res2 > TOL * 1.0001 or np.hypot(x - X[k], y - Y[k]) > 0.05:
+            if res2 > TOL * 1.0001 or np.hypot(x - X[k], y - Y[k]) > postol:
                 V.append(C.viol(f"row released by lon/lat ({lon[k]:.6f},{lat[k]:.6f}) starts at ({x:.5f},{y:.5f}) whose interpolated lon/lat misses by H={res2:.3g} "
                                 f"(intended position ({X[k]:.5f},{Y[k]:.5f}))", **desc))
                 break
